@@ -34,6 +34,7 @@ type Step struct {
 	Ages     []bool            `json:"ages,omitempty"`      // retention: per file (directory order) older than the cut-off?
 	Backup   bool              `json:"backup,omitempty"`    // retention: a backup client is configured
 	HWM      uint64            `json:"hwm,omitempty"`       // retention: high-water mark
+	Spill    int               `json:"spill,omitempty"`     // rtx: pages beyond old and new size spilled to the file and freed again
 }
 
 type Obs struct {
@@ -159,6 +160,28 @@ func (h *Runner) Close() {
 }
 
 func (h *Runner) DBDir() string { return filepath.Join(h.Dir, "dbs", h.Name) }
+
+// Reopen (re)opens the runner's own store on h.Dir with h.OpenOpts.
+func (h *Runner) Reopen() error {
+	if h.owner == 0 {
+		h.owner = 100
+	}
+	return h.open()
+}
+
+// PosTXID / PosChk: the position the database reports now (0 if it does not exist).
+func (h *Runner) PosTXID() uint64 {
+	if h.DB == nil {
+		return 0
+	}
+	return uint64(h.DB.Pos().TXID)
+}
+func (h *Runner) PosChk() uint64 {
+	if h.DB == nil {
+		return 0
+	}
+	return uint64(h.DB.Pos().PostApplyChecksum)
+}
 
 func (h *Runner) ensureDB() error {
 	if h.DB != nil && h.DB.PageN() > 0 {
@@ -288,6 +311,9 @@ func (h *Runner) genRTX(cur uint32, toWAL bool) Step {
 			st.Outcome = int(lfs.RollbackAfterWrite)
 		}
 	}
+	if cur > 0 && r.Chance(18) {
+		st.Spill = 1 + r.Intn(3)
+	}
 	if h.Cfg.Regime == 3 { // keep lock-page regimes sparse: do not write thousands of pages
 		for pg := range st.Writes {
 			if pg > 6 && (pg+3 < lfs.LockPgno(h.Cfg.PageSize) || pg > lfs.LockPgno(h.Cfg.PageSize)+3) {
@@ -362,6 +388,13 @@ func (h *Runner) Exec(st Step) Obs {
 			}
 			if _, ok := tx.Writes[1]; !ok && (st.ToWAL || len(h.Ref.Pages) == 0) {
 				tx.Writes[1] = h.page(1, h.nextContent(), st.NewSize, wal)
+			}
+			if st.Spill > 0 && lfs.RollbackOutcome(st.Outcome) != lfs.RollbackBeforeWrite {
+				tx.Spill = map[uint32][]byte{}
+				top := maxU32(uint32(len(h.Ref.Pages)), st.NewSize)
+				for i := 1; i <= st.Spill; i++ {
+					tx.Spill[top+uint32(i)] = h.page(top+uint32(i), h.nextContent(), st.NewSize, wal)
+				}
 			}
 			err = h.Pager.RunRollbackTx(h.Ref, tx, lfs.JournalMode(st.JMode), lfs.RollbackOutcome(st.Outcome), st.Sector, 0)
 			if err == nil {
